@@ -1,5 +1,5 @@
 (* Properties/C16.v — a .json module is data: module.exports = JSON.parse(<literal denoting the file text>) *)
-From GN Require Import Common.Base Gen.RequireGlue Model.JsonModule Proofs.JsonModuleProofs.
+From GN Require Import Common.Base Gen.RequireGlue Model.JsonModule Model.LoaderSrc Proofs.JsonModuleProofs.
 
 (* for EVERY text s (all Unicode scalar values: quotes, back-slashes, line terminators incl. U+2028/U+2029,
    controls, non-BMP, wrapper delimiters) and whatever follows, the literal built by the escaper lexes as
@@ -32,3 +32,9 @@ Proof.
   cbv zeta. split; [|vm_compute; reflexivity].
   repeat constructor; unfold scalar; lia.
 Qed.
+
+(* the text handed to the wrapper is the text of the file: nothing between the SourceLoader and JSON.parse adds, drops or
+   changes a byte (getSource and getCompiledSource as the model was written against) *)
+Theorem C16_text_reaches_parser_unchanged : loader_src = expected_loader_src.
+Proof. exact loader_source_unchanged. Qed.
+Print Assumptions C16_text_reaches_parser_unchanged.
